@@ -3,6 +3,7 @@ package stateful_test
 import (
 	"errors"
 	"testing"
+	"time"
 
 	"github.com/influxdata/kapacitor/tick/ast"
 	"github.com/influxdata/kapacitor/tick/stateful"
@@ -285,5 +286,62 @@ func TestExpression_UnaryNode_DyanmicTestCases(t *testing.T) {
 				},
 			},
 		})
+	})
+}
+
+// The result for a scope must not depend on the scopes the compiled expression saw before.
+func TestExpression_BinaryNode_HistoryIndependent(t *testing.T) {
+	t.Run("static node keeps its specialisation after an operand failed its type guard", func(t *testing.T) {
+		// !"value" AND TRUE
+		se := mustCompileExpression(&ast.BinaryNode{
+			Operator: ast.TokenAnd,
+			Left:     &ast.UnaryNode{Operator: ast.TokenNot, Node: &ast.ReferenceNode{Reference: "value"}},
+			Right:    &ast.BoolNode{Bool: true},
+		})
+		scope := stateful.NewScope()
+		scope.Set("value", int64(1))
+		if _, err := se.EvalBool(scope); err == nil {
+			t.Fatal("expected an error for an int operand of NOT")
+		}
+		scope.Set("value", false)
+		if got, err := se.EvalBool(scope); err != nil || !got {
+			t.Errorf("unexpected result after a failed evaluation: got %v %v, expected true", got, err)
+		}
+	})
+	t.Run("typed evaluation follows the operand types", func(t *testing.T) {
+		// "value" + "value"
+		se := mustCompileExpression(&ast.BinaryNode{
+			Operator: ast.TokenPlus,
+			Left:     &ast.ReferenceNode{Reference: "value"},
+			Right:    &ast.ReferenceNode{Reference: "value"},
+		})
+		scope := stateful.NewScope()
+		scope.Set("value", float64(1))
+		if got, err := se.EvalFloat(scope); err != nil || got != 2 {
+			t.Errorf("unexpected result: got %v %v, expected 2.0", got, err)
+		}
+		scope.Set("value", int64(1))
+		for i := 0; i < 2; i++ {
+			if got, err := se.EvalInt(scope); err != nil || got != 2 {
+				t.Errorf("unexpected result after a type change: got %v %v, expected 2", got, err)
+			}
+		}
+	})
+	t.Run("stateful operand is evaluated once per scope", func(t *testing.T) {
+		// count() * "value"
+		se := mustCompileExpression(&ast.BinaryNode{
+			Operator: ast.TokenMult,
+			Left:     &ast.FunctionNode{Func: "count"},
+			Right:    &ast.ReferenceNode{Reference: "value"},
+		})
+		scope := stateful.NewScope()
+		scope.Set("value", int64(2))
+		if got, err := se.Eval(scope); err != nil || got != int64(2) {
+			t.Errorf("unexpected result: got %v %v, expected 2", got, err)
+		}
+		scope.Set("value", time.Second)
+		if got, err := se.Eval(scope); err != nil || got != 2*time.Second {
+			t.Errorf("unexpected result after a type change: got %v %v, expected 2s", got, err)
+		}
 	})
 }
